@@ -24,6 +24,8 @@ def jobs_for(tier, seed):
             pts.append((f"{name}@w={w},se={se},v0", name, text,
                         {"max_width": w, "style_edition": se}))
     jobs = []
+    pts += [p for p in universe.option_points(tier, seed)
+            if p[0].split(",opt.")[1].split("=")[0] not in universe.TOKEN_CHANGING]
     for k, (pid, name, text, opts) in enumerate(pts):
         vk = pid.rsplit(",", 1)[-1]
         if vk in SKIP_VECTORS:
